@@ -376,7 +376,8 @@ def run(ctx):
 
     def dom_of(c, out):
         m = _re.search(r"\(dom ([01])\)", out)
-        return m.group(0) if m else "no-collision-decision " + out[:60]
+        r = _re.search(r"\((notif \d+ \d+|est)\b", out)
+        return (m.group(0) if m else "no-collision-decision " + out[:60]) + " " + (r.group(1) if r else "no-result")
 
     def dom_oracle(c, out):
         if not out.startswith("ok "):
@@ -390,6 +391,11 @@ def run(ctx):
         want = 1 if (k["id"] > o["id"] or (k["id"] == o["id"] and k["las"] > ras)) else 0
         if not m or int(m.group(1)) != want:
             return ("collision-winner", "isDominant = %s for local identifier %d / AS %d against %d / AS %d" % (m.group(1) if m else "?", k["id"], k["las"], o["id"], ras))
+        # the reaction to the OPEN itself (this property's "every error event gets the RFC's reaction"): an OPEN that must be
+        # refused is refused with the right NOTIFICATION, an acceptable one is not -- C08's statement of RFC 4271 6.2 / RFC 6286
+        r = c08.oracle(c, out)
+        if r and r[0] in ("open-accepted", "open-wrong-notification", "open-refused"):
+            return r
         return None
     ccases = [c08.gen_case(ctx.rng) for _ in range(ctx.scale(3000, 60000))]
     cov2 = core.differential(ctx, "c08", proof, ccases, c08.line_of, dom_oracle, norm_impl=dom_of, norm_model=dom_of, model_line_of=c08.model_line,
